@@ -10,8 +10,8 @@ K_CONTEXT = [
     {'crate': 'p3-circuit', 'harness': 'c19_set_witness_contract', 'profile': 'release'},
 ]
 PROPS = {
-    'C02': {'units': ['expr', 'lower', 'opt', 'fuse', 'fvalid', 'run19'], 'kani': K_ANALYSIS + [{'crate': 'p3-circuit', 'harness': 'c02_allocator_monotone'}]},
-    'C03': {'units': ['opt', 'fuse', 'fvalid'], 'kani': K_ANALYSIS},
+    'C02': {'units': ['expr', 'lower', 'opt', 'fuse', 'fvalid', 'optm', 'run19'], 'kani': K_ANALYSIS + [{'crate': 'p3-circuit', 'harness': 'c02_allocator_monotone'}]},
+    'C03': {'units': ['opt', 'fuse', 'fvalid', 'optm'], 'kani': K_ANALYSIS},
     'C19': {'units': ['run19'], 'kani': K_CONTEXT},
     'C20': {'units': ['gad', 'quot', 'fri', 'periodic'], 'kani': [], 'only': {'fri': r'evaluate_polynomial|circuit_exp_by_constant|lemma_'}},
     'C07': {'units': ['fri', 'shape', 'fold', 'fchain', 'fquery', 'evpts', 'openin'], 'kani': [], 'only': {'shape': r'verify_fri_circuit'}, 'exclude': r'possible (bit shift|arithmetic)'},
@@ -21,13 +21,13 @@ PROPS = {
     'C10': {'units': ['sched', 'tracegen', 'ptrace'], 'kani': []},
     'C18': {'units': ['dsu', 'order', 'pphase', 'fvalid'], 'kani': []},
     'C14': {'units': ['pack', 'pack2', 'pack3'], 'kani': []},
-    'C12': {'units': ['bits', 'chal', 'coef', 'rcair'], 'kani': [], 'only': {'chal': r'canonical_width'}},
+    'C12': {'units': ['bits', 'chal', 'coef', 'rcair', 'prep'], 'kani': [], 'only': {'chal': r'canonical_width', 'prep': r'operand_[ac]_takes_part_in_the_witness_bus'}},
     'C15': {'units': ['shape', 'bshape', 'openin'], 'kani': [], 'only': {'openin': r'per_matrix_shape_and_grouping|compute_single_reduced_opening|height_group'}},
     'C13': {'units': ['sym', 'symx'], 'kani': []},
     'C09': {'units': ['prep', 'mult', 'pread', 'pphase', 'ptrace'], 'kani': []},
     'C08': {'units': ['mmcs', 'hash', 'mbind', 'vbatch', 'vbatchx'], 'kani': []},
     'C16': {'units': ['meta', 'vrfy', 'serde16'], 'kani': []},
-    'C11': {'units': ['air', 'alu', 'run19', 'tracegen'], 'kani': [], 'only': {'run19': r'execute_alu_op'}},
+    'C11': {'units': ['air', 'alu', 'run19', 'tracegen', 'pchain'], 'kani': [], 'only': {'run19': r'execute_alu_op'}},
 }
 
 TB_COMMON = ['p3 field types satisfy the field laws the lemmas name; machine field arithmetic treated as mathematical',
